@@ -18,6 +18,7 @@ import (
 	"time"
 
 	"github.com/zishang520/engine.io/v2/config"
+	"github.com/zishang520/engine.io/v2/engine"
 	"github.com/zishang520/engine.io/v2/types"
 	"github.com/zishang520/engine.io/v2/utils"
 	"pgregory.net/rapid"
@@ -47,7 +48,7 @@ type lcStep struct {
 func (s lcStep) String() string {
 	switch s.Kind {
 	case "hs":
-		return fmt.Sprintf("hs#%d(%s,rev%d%s)", s.Sess, s.Car, s.Rev, map[string]string{"connCloseNow": ",Close(true) in the connection listener", "connClose": ",Close(false) in the connection listener"}[s.Cause])
+		return fmt.Sprintf("hs#%d(%s,rev%d%s)", s.Sess, s.Car, s.Rev, map[string]string{"connCloseNow": ",Close(true) in the connection listener", "connClose": ",Close(false) in the connection listener", "flushCloseNow": ",Close(true) in the server's flush listener while the open packet is handed over"}[s.Cause])
 	case "gateHandshake":
 		return fmt.Sprintf("gateHandshake#%d(%s,%s)", s.Sess, s.Car, s.Cause)
 	case "cause":
@@ -142,6 +143,7 @@ type lcWorld struct {
 	allSids     []string
 	flushPark   chan struct{}
 	flushParked bool
+	flushClose  bool // the next hand-off (an open packet) makes the application's flush listener call Close(true)
 }
 
 func (lw *lcWorld) f03(format string, a ...any) {
@@ -212,7 +214,7 @@ func genLC(rt *rapid.T, gates bool, known map[string]bool, col *Collector) []lcS
 			}
 			if k == "hs" {
 				// the application may turn the client away inside its connection listener
-				st.Cause = rapid.SampledFrom([]string{"", "", "", "", "connCloseNow", "connClose"}).Draw(rt, l+".conn")
+				st.Cause = rapid.SampledFrom([]string{"", "", "", "", "connCloseNow", "connClose", "flushCloseNow"}).Draw(rt, l+".conn")
 			}
 			if k == "gateHandshake" {
 				st.Car = rapid.SampledFrom([]string{"websocket", "webtransport"}).Draw(rt, l+".gcar")
@@ -748,6 +750,9 @@ func (lw *lcWorld) handshake(st lcStep) {
 		gp = lw.arm("server.Handshake.constructed")
 	}
 	connAct := ""
+	if st.Kind == "hs" && st.Cause == "flushCloseNow" {
+		lw.flushClose = true
+	}
 	if st.Kind == "hs" && strings.HasPrefix(st.Cause, "conn") {
 		connAct = st.Cause
 		prev := w.OnConn
@@ -763,8 +768,9 @@ func (lw *lcWorld) handshake(st lcStep) {
 		pc := &PollClient{W: w, O: ClientOpts{Rev: st.Rev, EIO: eio}}
 		pc.StartHandshake()
 		Settle()
+		s.pc = pc
 		if err := pc.FinishHandshake(); err == nil {
-			s.pc, s.sid = pc, pc.Sid
+			s.sid = pc.Sid
 		}
 	case "websocket":
 		wc := &WSClient{W: w, O: ClientOpts{Rev: st.Rev, EIO: eio}}
@@ -904,15 +910,20 @@ func (lw *lcWorld) handshake(st lcStep) {
 	if connAct != "" {
 		s.addCause(map[string]string{"connCloseNow": "appCloseNow", "connClose": "appClose"}[connAct])
 	}
+	if st.Kind == "hs" && st.Cause == "flushCloseNow" {
+		lw.flushClose = false
+		s.addCause("appCloseNow")
+	}
 	if s.sid != "" {
 		lw.allSids = append(lw.allSids, s.sid)
 		s.sr = w.Get(s.sid)
 		if s.sr == nil {
 			// created (the client holds its id) but never announced: must not be registered
-			if _, ok := w.Srv.Clients().Load(s.sid); ok && !gated {
+			endedEarly := gated || (st.Kind == "hs" && st.Cause == "flushCloseNow")
+			if _, ok := w.Srv.Clients().Load(s.sid); ok && !endedEarly {
 				lw.f04("session %s is in the client table but no connection event announced it", short(s.sid))
 			}
-			if gated {
+			if endedEarly {
 				// a session that died before it was announced counts as created-and-closed
 				lw.sess[st.Sess] = nil
 				closedBeforeAnnounce[s.sid] = true
@@ -955,7 +966,16 @@ func runLC(steps []lcStep) (*lcWorld, bubbleResult) {
 		w.OnConn = func(sr *SessRec) {}
 		// an application listener of the server's flush event that can be made to block: holds the
 		// handshake inside the hand-off of the open packet (no source hook needed for this window)
-		w.Srv.On("flush", func(...any) {
+		w.Srv.On("flush", func(args ...any) {
+			if lw.flushClose {
+				// the application turns the client away while its open packet is being handed over
+				lw.flushClose = false
+				if sock, ok := args[0].(engine.Socket); ok {
+					lw.stats["closed-inside-a-flush-listener-during-the-handshake"] = true
+					sock.Close(true)
+				}
+				return
+			}
 			if ch := lw.flushPark; ch != nil {
 				lw.flushPark = nil
 				lw.flushParked = true
@@ -1444,7 +1464,7 @@ func TestC03Lifecycle(t *testing.T) {
 			}
 		})
 	}
-	req := []string{"upgraded-session", "close-timeout-before-the-heartbeat", "server-write-fails-before-its-reader-notices", "peer-stops-reading", "upgrade-packet-inside-the-close-listener", "closed-inside-the-connection-listener", "session-closed-inside-Send", "carrier.polling", "carrier.websocket", "carrier.webtransport", "two-causes-same-instant", ">=2-causes-on-one-session", "activity-after-close", "stayed-open", "server-close", "close-with-buffered-data-and-a-client-that-keeps-reading", "close-inside-a-packet-listener", "close-inside-a-data-listener"}
+	req := []string{"closed-inside-a-flush-listener-during-the-handshake", "upgraded-session", "close-timeout-before-the-heartbeat", "server-write-fails-before-its-reader-notices", "peer-stops-reading", "upgrade-packet-inside-the-close-listener", "closed-inside-the-connection-listener", "session-closed-inside-Send", "carrier.polling", "carrier.websocket", "carrier.webtransport", "two-causes-same-instant", ">=2-causes-on-one-session", "activity-after-close", "stayed-open", "server-close", "close-with-buffered-data-and-a-client-that-keeps-reading", "close-inside-a-packet-listener", "close-inside-a-data-listener"}
 	if !known[sigDoubleClose] {
 		req = append(req, "second-cause-inside-OnClose-window")
 	}
